@@ -90,6 +90,12 @@ class Prop:
                         for e2 in extra[entry]:
                             if rng.random() < 0.3:
                                 add(e2, mb, 'mutated-' + conv)
+        # rule values that only fail when they are interpreted (regular expressions that do not compile, ...)
+        for rx in ['+', '*', '(', ')', '[a', 'a{2,1}', '\\\\l', '(?<n', '[z-a]', '^[a|-c]+$', 'a**', '\\\\p{Nope}', '(?P<a>x)(?P<a>y)', 'x{1001}']:
+            for form in ['"abc" // {regex: "%s"}', '"abc" /* {regex: "%s"} - a note */', '{\n  "k": "abc" // {regex: "%s"}\n}',
+                         '"abc" // {or: [{type: "string", regex: "%s"}, "integer"]}', '{ // {additionalProperties: "string"}\n  "k": "v" // {regex: "%s", optional: true}\n}']:
+                for e in ('S', 'SL', 'SA', 'SE'):
+                    add(e, (form % rx).encode(), 'bad-rule-value')
         return cs
 
     def model_lines(self, lines, impl):
